@@ -209,6 +209,17 @@ def run(tier, seed):
     w = witnesses()
     res = core.Result.merge([res.to_dict(), w.to_dict()])
     all_atoms = res.sets.get("atoms", set())
+    # the generator's atom universe (every production / option it can emit), by a dry run without the probe
+    universe = set()
+    for i in range(4000):
+        r_ = core.rng_for(0, "universe", i)
+        g_ = gen.Gen(r_, depth=3)
+        try:
+            g_.library(r_.randint(1, 6))
+        except gen.Unavailable:
+            pass
+        universe |= g_.atoms
+    never_held = sorted(a for a in universe if a not in all_atoms and not a.startswith("grid."))
     extra = {
         "rule": "exhaustive operator grid (every ordered operator pair x 3 parenthesisation shapes, unary "
                 "placements, 343 operator triples) judged against a reference precedence-climbing parser; random "
@@ -219,7 +230,9 @@ def run(tier, seed):
         "assumptions": ["normal form ignores representation choices listed in DESIGN.md App. A",
                         "known-bad atoms avoided in the clean subset: %s" % ", ".join(bad)],
         "min_evaluations": 500,
-        "coverage": {"grid_exhaustive": True, "atoms_seen": len(all_atoms), "known_bad_atoms": bad},
+        "coverage": {"grid_exhaustive": True, "atoms_seen": len(all_atoms), "known_bad_atoms": bad,
+                     "generator_atom_universe": len(universe),
+                     "atoms_never_in_a_case_that_held": never_held},
     }
     return res, extra
 
